@@ -74,7 +74,11 @@ Checks(e) ==
     [] e.ev \in {"close_stuck", "driver_failed"} -> << <<FALSE, "Close did not return / driver died">> >>
     [] OTHER -> <<>>
 Ok(e) == \A i \in DOMAIN Checks(e) : Checks(e)[i][1]
-Why(e) == LET C == Checks(e) bad == {i \in DOMAIN C : ~C[i][1]} IN IF bad = {} THEN "" ELSE C[CHOOSE i \in bad : \A j \in bad : i <= j][2]
+\* every clause the event breaks, in order, joined by " ;; " (the pipeline attributes each to the property that states it)
+RECURSIVE JoinBad(_, _)
+JoinBad(C, i) == IF i > Len(C) THEN "" ELSE LET rest == JoinBad(C, i + 1) IN
+                 IF C[i][1] THEN rest ELSE IF rest = "" THEN C[i][2] ELSE C[i][2] \o " ;; " \o rest
+Why(e) == JoinBad(Checks(e), 1)
 \* ---- state update
 Apply(e) ==
   CASE e.ev = "reset" -> Fresh(e.maxRecs, e.maxBytes) /\ traces' = traces + 1
